@@ -69,7 +69,7 @@ def run(ctx):
                 detail = "value %s after %d prior Encodes renders as %r" % (rec["vid"], rec["n"], bs(rec["text"])[:200])
             ctx.violation(cls, "%s: %s" % (b["what"], detail), {"what": b["what"], "record": rec})
     # ---- second half: every field kind x default x union/group membership of the TLC-generated schemas
-    greq, gstats = lp.generated_request(ctx, every=8 if ctx.quick else 1)
+    greq, gstats = lp.generated_request(ctx, every=8 if ctx.quick else 3)
     gen, overlay, srcs, results = lp.prepare(ctx, extra_requests=[greq])
     driven = [n for n in ["aircraft", "gen"] if results[n]["rc"] == 0]
     if "gen" not in driven:
